@@ -316,6 +316,11 @@ func genHeader(r *Rng, m *MsgSpec) {
 	m.Exch = Pick[uint8](r, 34, 35, 36, 37, r.U8())
 	m.Flags = Pick[uint8](r, 0x08, 0x20, 0x28, 0x00, r.U8())
 	m.MsgID = Pick[uint32](r, 0, 1, 2, r.U32(), 0xffffffff)
+	// stale header bookkeeping, as on a reused / previously decoded message object
+	if r.Chance(1, 3) {
+		m.HdrNext = Pick[uint8](r, 46, 46, 33, 40, 41, 48, 255, r.U8())
+		m.Junk = r.Bool()
+	}
 }
 
 // inflatable payload slots for the "near the limit" size class
